@@ -150,6 +150,11 @@ def choices():
     # an untagged ANY as the catch-all alternative: the value is the whole element, header included
     anyalt = T('CHOICE', [], fields=[('i', T('INTEGER'), 'req'), ('y', T('ANY'), 'req')])
     out += [(anyalt, ('i', 5)), (anyalt, ('y', b'\x04\x02ab')), (anyalt, ('y', b'\x30\x03\x01\x01\xff'))]
+    # ... next to a constructed alternative and a string one: the alternative is found through a tag map that has a
+    # catch-all (ANY) entry, and what is found is decoded in constructed / segmented form
+    anyalt3 = T('CHOICE', [], fields=[('i', T('INTEGER'), 'req'), ('q', T('SEQUENCE', [('I', CTX, 2)], fields=[('a', T('INTEGER'), 'req')]), 'req'),
+                                      ('s', T('OCTETSTRING', [('I', CTX, 1)]), 'req'), ('y', T('ANY'), 'req')])
+    out += [(anyalt3, ('q', {'a': 1})), (anyalt3, ('s', b'segmented')), (anyalt3, ('y', b'\x05\x00'))]
     holder = T('SEQUENCE', [], fields=[('c', anyalt, 'req'), ('z', T('INTEGER', [('I', CTX, 0)]), 'opt')])
     out += [(holder, {'c': ('y', b'\x0c\x02hi'), 'z': 1}), (holder, {'c': ('i', 3)})]
     return out
